@@ -7,7 +7,7 @@ from ..spec import build
 from ..canon import Snap
 
 PROPERTY = 'C17'
-CASES = {'quick': 72, 'thorough': 800}
+CASES = {'quick': 216, 'thorough': 1728}
 BUDGET_S = {'quick': 300, 'thorough': 2400}
 RULE = ('case = an LP portfolio (storages - the interesting coupling -, contracts with takes, transports, multi-commodity, scaled assets) with 2-5 price '
         'scenarios sharing the present prices and a present/future boundary at a random grid position (also position 0 and identical scenarios); all '
@@ -20,8 +20,8 @@ RULE = ('case = an LP portfolio (storages - the interesting coupling -, contract
 ASSUMPTIONS = ['a variable is "future" iff its first mapping row lies at or after the boundary (assets whose variables span the boundary are not generated)',
                'expected-value-of-fixed-present problems are solved with HiGHS on the real deterministic problems with the present bounds pinned by the harness',
                'value tolerance 1e-5 relative (Clarabel vs HiGHS ~1e-7)']
-MIN_NONVACUOUS = {'quick': {'slp.scenario_vectors_feasible': 120, 'slp.value_decomposition': 45, 'slp.not_above_wait_and_see': 45, 'slp.not_below_fixed_present': 70,
-                            'slp.identical_scenarios_equal_deterministic': 6, 'robust.worst_case_at_least_single_scenario': 100, 'robust.worst_case_at_most_min_optimum': 45},
+MIN_NONVACUOUS = {'quick': {'slp.scenario_vectors_feasible': 300, 'slp.value_decomposition': 112, 'slp.not_above_wait_and_see': 112, 'slp.not_below_fixed_present': 175,
+                            'slp.identical_scenarios_equal_deterministic': 15, 'robust.worst_case_at_least_single_scenario': 250, 'robust.worst_case_at_most_min_optimum': 112},
                   'thorough': {'slp.scenario_vectors_feasible': 1500, 'slp.not_below_fixed_present': 900, 'robust.worst_case_at_least_single_scenario': 1200}}
 
 
